@@ -25,7 +25,7 @@ ASSUMPTIONS = [
     'reply exactly at the deadline instant: either behaviour accepted',
 ]
 
-ALPHABET = [[8, '61'], [8, '62'], [32, '6b'], [8, '']]
+ALPHABET = [[8, '61'], [8, '62'], [32, '6b'], [8, ''], [1, '5a' * 32]]     # incl. an implicit-digest component
 
 
 def _comps(p):
@@ -34,7 +34,7 @@ def _comps(p):
 
 def _history(subject):
     pref = st.lists(st.sampled_from(ALPHABET), min_size=0, max_size=3)
-    attach = st.fixed_dictionaries({'op': st.just('attach'), 'p': pref, 'rep': st.integers(0, 10),
+    attach = st.fixed_dictionaries({'op': st.just('attach'), 'p': pref, 'rep': st.integers(0, 14),
                                     'val': st.sampled_from([None, None, 'pass', 'fail', 'slow-pass'])})
     attach_dup = st.fixed_dictionaries({'op': st.just('attach'), 'k': st.integers(0, 7), 'rep': st.integers(0, 6),
                                         'val': st.sampled_from(['pass', 'fail', None])})
@@ -129,7 +129,12 @@ def _run(subj, sim, ops, r):
 
     def do_attach(key, rep, val=None):
         scratch = None
-        if rep >= 7:
+        via_route = False
+        if rep >= 11:
+            # one-shot forms of the prefix (generator / iterator), and the route() decorator of appv2
+            via_route = rep in (13, 14) and subj == 'v2'
+            arg = (c for c in list(key)) if rep in (11, 13) else iter(list(key))
+        elif rep >= 7:
             arg, scratch = _mutable_arg(key, rep)
         else:
             arg = P.name_in_rep([[T.read_num(c, 0, len(c))[0], bytes(c[T.read_tlv(c, 0, len(c))[2]:]).hex()] for c in key], rep)
@@ -145,7 +150,10 @@ def _run(subj, sim, ops, r):
                         await asyncio.sleep(0.03)
                     return ValidResult.FAIL if val == 'fail' else ValidResult.PASS
             try:
-                sim.vl.call(sim.app.attach_handler, arg, h, validator)
+                if via_route:
+                    sim.vl.call(lambda: sim.app.route(arg, validator)(h))
+                else:
+                    sim.vl.call(sim.app.attach_handler, arg, h, validator)
             finally:
                 if scratch:
                     _scribble(scratch)
